@@ -37,6 +37,15 @@ Theorem C10_traverse_dfs_children_first : forall t seen, children_first_from see
 Proof. exact post_sub_children_first. Qed.
 Print Assumptions C10_traverse_dfs_children_first.
 
+(* the dfs order is admissible for EVERY binary tree with distinct leaves, whatever the stored
+   (left, right) order at each node: `tree` has no heaviest-first constraint, Leaf k may sit on
+   the left of a Node.  (C01's ExecOrderFacts.traverse_dfs_valid states the same for its
+   valid_order.)  Together with C10_get_path_roundtrip / C10_get_ssa_path_roundtrip, which
+   quantify over all t : tree, the round trips hold for every child order. *)
+Theorem C10_traverse_dfs_admissible_any_child_order : forall t, NoDup (leaves t) -> ok_order t (post_sub t).
+Proof. exact dfs_ok_order. Qed.
+Print Assumptions C10_traverse_dfs_admissible_any_child_order.
+
 (* meaning of the checker children_first_from (it is run on every real traversal, for
    every order, so for arbitrary callables the statement is certified per run) *)
 Theorem C10_children_first_checker_sound : forall trav seen, children_first_from seen trav = true ->
@@ -239,6 +248,8 @@ Example C10_nonvacuous :
   edge_path_to_ssa [1; 2; 0] [[0;1]; [1;2]; [2;0;1]] = ([[0;1;2]], false) /\
   sp_path (spec_run [[0;1]; [1;2]; [3]; [2;0;1]] [3; 1; 0]) = [[0;1;3]] /\
   edge_path_to_ssa [3; 1; 3] [[0;1]; [1;2]; [3]; [2;0;1]] = ([[0;1;3]], true) /\
+  children_first_b (post_sub (Node (Leaf 2) (Node (Leaf 0) (Leaf 1)))) = true /\
+  get_ssa_path 3 (post_sub (Node (Leaf 2) (Node (Leaf 0) (Leaf 1)))) = [(0,1); (2,3)] /\
   full_leaves 5 t /\ valid_lin 5 [[2;4]; [0;2]; [0;2]; [0;1]] /\ valid_ssa (seq 0 5) 5 [[4;2]; [3;0]; [6;1]; [7;5]].
 Proof.
   cbn zeta. repeat match goal with |- _ /\ _ => split end; try (vm_compute; reflexivity).
